@@ -12,6 +12,7 @@ import (
 	dtlsflight "github.com/pion/dtls/v3/internal/flight"
 	dtlsflight13 "github.com/pion/dtls/v3/internal/flight/flight13"
 	dtlsstate "github.com/pion/dtls/v3/internal/state"
+	"github.com/pion/dtls/v3/internal/vtrace"
 	"github.com/pion/dtls/v3/pkg/protocol"
 	"github.com/pion/dtls/v3/pkg/protocol/alert"
 	"github.com/pion/dtls/v3/pkg/protocol/handshake"
@@ -157,6 +158,10 @@ func (s *fsm13) Run(ctx context.Context, conn Conn, initialState State) (err err
 				s.currentFlight.String(),
 				state.String(),
 			)
+			if vtrace.Enabled {
+				vtrace.Emit(s.cfg, "fsm.state", "ver", 13, "client", s.state.IsClient, "flight", s.currentFlight.String(),
+					"state", state.String(), "interval", int64(s.retransmitInterval), "retransmit", s.retransmit)
+			}
 		},
 		s.prepare,
 		s.send,
@@ -322,7 +327,16 @@ func (s *fsm13) wait(ctx context.Context, conn Conn) (State, error) {
 	for {
 		select {
 		case received := <-conn.RecvHandshake():
+			if vtrace.Enabled {
+				vtrace.Emit(s.cfg, "fsm.recv", "client", s.state.IsClient, "flight", s.currentFlight.String(),
+					"isRetransmit", received.IsRetransmit, "hasHandshake", received.HasHandshake, "acks", len(received.ACKs))
+			}
 			transition, err := s.handleReceivedFlight(ctx, conn, received)
+			if vtrace.Enabled {
+				vtrace.Emit(s.cfg, "fsm.parsed", "client", s.state.IsClient, "flight", s.currentFlight.String(),
+					"next", transition.state.String(), "alert", false, "err", err != nil,
+					"interval", int64(s.retransmitInterval), "retransmit", s.retransmit)
+			}
 			if err != nil {
 				return StateErrored, err
 			}
@@ -336,11 +350,26 @@ func (s *fsm13) wait(ctx context.Context, conn Conn) (State, error) {
 			return transition.state, nil
 
 		case <-retransmitTimer.C:
+			if vtrace.Enabled {
+				return s.traceTimeout(handleRetransmitTimeout(s.retransmit, &s.retransmitInterval, s.cfg), false), nil
+			}
+
 			return handleRetransmitTimeout(s.retransmit, &s.retransmitInterval, s.cfg), nil
+		case <-vtrace.TimeoutC(s.cfg):
+			return s.traceTimeout(handleRetransmitTimeout(s.retransmit, &s.retransmitInterval, s.cfg), true), nil
 		case <-ctx.Done():
 			return handleWaitCancellation(&s.retransmitInterval, s.cfg, ctx.Err())
 		}
 	}
+}
+
+func (s *fsm13) traceTimeout(next State, virtual bool) State {
+	if vtrace.Enabled {
+		vtrace.Emit(s.cfg, "fsm.timeout", "client", s.state.IsClient, "flight", s.currentFlight.String(),
+			"retransmit", s.retransmit, "interval", int64(s.retransmitInterval), "next", next.String(), "virtual", virtual)
+	}
+
+	return next
 }
 
 func (s *fsm13) finish(ctx context.Context, conn Conn) (State, error) {
@@ -356,6 +385,10 @@ func (s *fsm13) finish(ctx context.Context, conn Conn) (State, error) {
 
 	select {
 	case received := <-conn.RecvHandshake():
+		if vtrace.Enabled {
+			vtrace.Emit(s.cfg, "fsm.finrecv", "client", s.state.IsClient, "flight", s.currentFlight.String(),
+				"isRetransmit", received.IsRetransmit, "hasHandshake", received.HasHandshake, "acks", len(received.ACKs))
+		}
 		s.received.retain(received)
 		defer s.received.release()
 		if err := s.postHandshake.handlePostHandshakeReceive(ctx, conn, received); err != nil {
@@ -363,10 +396,24 @@ func (s *fsm13) finish(ctx context.Context, conn Conn) (State, error) {
 		}
 
 	case command := <-s.postHandshake.commands:
+		if vtrace.Enabled {
+			vtrace.Emit(s.cfg, "ph.command", "client", s.state.IsClient, "kind", int(command.Kind))
+		}
 		s.postHandshake.queue = append(s.postHandshake.queue, command)
 
 	case now := <-timerC:
+		if vtrace.Enabled {
+			vtrace.Emit(s.cfg, "ph.timer", "client", s.state.IsClient, "virtual", false)
+		}
 		if err := s.postHandshake.retransmitPostHandshake(ctx, conn, now, s.cfg.DisableRetransmitBackoff); err != nil {
+			return StateErrored, err
+		}
+
+	case <-vtrace.TimeoutC(s.cfg):
+		vtrace.Emit(s.cfg, "ph.timer", "client", s.state.IsClient, "virtual", true)
+		if err := s.postHandshake.retransmitPostHandshake(
+			ctx, conn, time.Now().Add(1000*time.Hour), s.cfg.DisableRetransmitBackoff,
+		); err != nil {
 			return StateErrored, err
 		}
 
